@@ -139,7 +139,7 @@ def to_number(value: JSValue) -> Union[int, float]:
     if isinstance(value, bool):
         return 1 if value else 0
     if isinstance(value, (int, float)):
-        return value
+        return js_number(value)
     if isinstance(value, str):
         # StringNumericLiteral: Python's int()/float() accept more ("1_0",
         # "nan", "inf", non-ASCII digits) and str.strip() trims other characters
@@ -147,18 +147,33 @@ def to_number(value: JSValue) -> Union[int, float]:
         if s == "":
             return 0
         if _RADIX_LITERAL.match(s):
-            return int(s[2:], {"x": 16, "o": 8, "b": 2}[s[1].lower()])
+            return js_number(int(s[2:], {"x": 16, "o": 8, "b": 2}[s[1].lower()]))
         if not _DECIMAL_LITERAL.match(s):
             return float("nan")
         if "Infinity" in s:
             return float("-inf") if s.startswith("-") else float("inf")
         if "." in s or "e" in s or "E" in s:
             return float(s)
-        n = int(s)
-        # Integers beyond the double range are infinite, as in float()
-        return n if abs(n) < 2**1023 else float(s)
+        # Integers beyond 2**53 are rounded to a double, beyond its range infinite
+        return js_number(int(s))
     # TODO: Handle objects with valueOf
     return float("nan")
+
+
+def js_number(n: Union[int, float]) -> Union[int, float]:
+    """A Number in the engine's representation.
+
+    Whole numbers are held as Python ints, which is only the same thing as a
+    double up to 2**53. Beyond that an int keeps digits a double does not have
+    (2**53 + 1 would differ from 2**53), so it is rounded to the nearest
+    double, as IEEE arithmetic does; beyond the double range it is infinite.
+    """
+    if isinstance(n, int) and not -(2**53) <= n <= 2**53 and not isinstance(n, bool):
+        try:
+            return float(n)
+        except OverflowError:
+            return float("inf") if n > 0 else float("-inf")
+    return n
 
 
 def to_integer(value: JSValue, default: int = 0) -> int:
